@@ -243,3 +243,24 @@ def find_cycle(graph):
             if r:
                 return r
     return None
+
+
+def cycle_through(ctx, start_defs):
+    """(cycle, self-nesting sites) of the lock-order graph that involve code reachable from the given function defs"""
+    F = ctx.facts
+    edges, _bug, _n, _i = lock_graph(ctx, record_ok=False)
+    graph = {}
+    for (h, a2), sites in edges.items():
+        graph.setdefault(h, set()).add(a2)
+    cyc = find_cycle(graph)
+    relevant = set()
+    for d in start_defs:
+        for nid in F.insts_of(d):
+            relevant |= {F.def_of(n) for n in F.inst_reach([nid])}
+    bad_cycle = None
+    if cyc:
+        cyc_edges = [(h, a2) for (h, a2) in edges if h in cyc and a2 in cyc and h != a2]
+        if any(s[0].name in relevant for e in cyc_edges for s in edges[e]):
+            bad_cycle = cyc
+    bad_self = [(h, s[0].where(s[1])) for (h, a2), sites in edges.items() if h == a2 for s in sites if s[0].name in relevant]
+    return bad_cycle, bad_self
